@@ -882,6 +882,9 @@ func randStruct(r *rand.Rand, o *structOpts) *Case {
 	}
 	pick := cars[r.Intn(len(cars))]
 	cs.Carrier, cs.PathKind = pick.car, pick.path
+	if cs.Carrier == CarFile && r.Intn(6) == 0 {
+		cs.PathKind = 3
+	}
 	if r.Intn(5) == 0 {
 		cs.Tail = tails[r.Intn(len(tails))]
 	}
